@@ -333,7 +333,10 @@ static void run_c16(void)
             SIM_CHECK(u->done == 2, "once:not-exactly-once", "revived unit %d did not run", i);
             for (int k = 0; k < S.nk; k++) {
                 void *got = (void *)1;
-                ABT_OK(ABT_thread_get_specific(u->th, S.keys[k], &got));
+                if (u->is_task) /* (the tasklet-flavoured names of the same routines) */
+                    ABT_OK(ABT_task_get_specific(u->th, S.keys[k], &got));
+                else
+                    ABT_OK(ABT_thread_get_specific(u->th, S.keys[k], &got));
                 SIM_CHECK(got == (void *)u->last[k], "key:wrong-value", "unit %d key %d: value after the revived incarnation %p, expected %p", i, k, got, (void *)u->last[k]);
             }
             S.revives++;
